@@ -83,9 +83,18 @@ class IsValid(RecProbe):
         return "1" if R.mk_rec(a[1]).get_is_valid(T.mk_tp(a[3])) else "0"
 
     def oracle(self, a, out):
-        if self.known(a):
-            return None
         m, rec, info, probe = a
+        if self.known(a):
+            # F5's domain: the iterated series itself differs from the denoted one, but the property's
+            # clause is about iteration - "true exactly when iteration yields a point equal to p" -
+            # and a bounded recurrence can simply be iterated
+            set_mode(m)
+            point = T.mk_tp(probe)
+            member = any(q == point for q in R.mk_rec(rec))
+            if out != ("1" if member else "0"):
+                return "get_is_valid(%s) on %s in %s gives %s, but iterating it %s an equal point" % (
+                    T.describe_tp(probe), R.rec_line(rec), m, out, "yields" if member else "does not yield")
+            return None
         info = dict(info)
         # membership by the series the property denotes (far enough to pass the probe)
         series, rev = R.expected_series(m, info, FUEL)
